@@ -131,6 +131,44 @@ def history_kms_object(res, n, rng, known_ivs):
     res.count("kms_object_calls", n)
 
 
+def history_same_directory(res, drv, n):
+    """encrypt-and-generate run again and again into one output directory (an incremental build), identical and changing firmware:
+    after every run the directory must hold one consistent set - the content decrypts with the IV the info publishes"""
+    from suit_generator import cmd_encrypt
+    from cryptography.hazmat.primitives.ciphers.aead import AESGCM
+    ivs = {}
+    with tempfile.TemporaryDirectory(prefix="verif_c14d_") as d:
+        outd = os.path.join(d, "out")
+        os.makedirs(outd)
+        fwp = os.path.join(d, "fw.bin")
+        for i in range(n):
+            fw = bytes(range(64)) if i % 3 != 2 else bytes([i % 256]) * 64        # A, A, B, A, A, B ... (same length throughout)
+            open(fwp, "wb").write(fw)
+            try:
+                cmd_encrypt.main(encrypt_subcommand="encrypt-and-generate", firmware=fwp, key_name="aes_key", key_id=0x7FFFFFE0, context=aes_keys_dir(),
+                                 hash_alg="sha-256", kw_alg="direct", kms_script=str(common.REPO / "ncs" / "basic_kms.py"),
+                                 encrypt_script=str(common.REPO / "ncs" / "encrypt_script.py"), output_dir=outd)
+            except BaseException as e:  # noqa
+                res.spec_failures.append({"rebuild": i, "what": "encrypt-and-generate into a used output directory failed: " + type(e).__name__})
+                continue
+            res.case(["same-directory", i], nontrivial=True)
+            info = open(os.path.join(outd, "suit_encryption_info.bin"), "rb").read()
+            content = open(os.path.join(outd, "encrypted_content.bin"), "rb").read()
+            v = drv.call({"op": "spec.C06", "info": info.hex()})["ok"]
+            iv = bytes.fromhex(v["iv"])
+            try:
+                ok = AESGCM(AES_KEY).decrypt(iv, content[16:] + content[:16], bytes.fromhex(v["aad"])) == fw
+            except Exception:
+                ok = False
+            if not ok:
+                res.spec_failures.append({"rebuild": i, "iv": iv.hex(), "what": "after a rebuild into the same directory the content does not decrypt with the published IV "
+                                                                                  "(the IV published is not the one this ciphertext was produced with)"})
+            if iv in ivs:
+                res.spec_failures.append({"rebuild": i, "iv": iv.hex(), "earlier": ivs[iv], "what": "IV repeated across rebuilds"})
+            ivs[iv] = i
+    res.count("same_directory_rebuilds", n)
+
+
 def history_cli(res, drv, n, known_ivs):
     """separate interpreter per invocation, identical firmware"""
     ivs = dict(known_ivs)
@@ -177,6 +215,7 @@ def run(tier: str, seed: int) -> int:
     drv = Driver()
     ivs = history_in_process(res, drv, 3000 if tier == "quick" else 100000, rng)
     history_kms_object(res, 600 if tier == "quick" else 20000, rng, ivs)
+    history_same_directory(res, drv, 9 if tier == "quick" else 60)
     history_cli(res, drv, 16 if tier == "quick" else 100, ivs)
     some = list(ivs.items())[:3]
     res.sample({"first_calls": [{"call": c, "published_iv": iv.hex()} for iv, c in some]})
